@@ -708,7 +708,7 @@ func (e *Explorer) maybeRefresh() {
 }
 
 var (
-	heapRefreshLimit uint64 = 2 << 30
+	heapRefreshLimit uint64 = 1500 << 20
 	defsRefreshLimit        = 3000000 // definitions held by one solver process
 )
 
